@@ -111,7 +111,9 @@ _SIZING = {}
 
 
 def sizing_exprs():
-    """compile `self.max_depth = <e1>` and `num_items = <e2>` of MerkleTree.__init__ from the source"""
+    """compile `self.max_depth = <e1>` and `num_items = <e2>` of MerkleTree.__init__ from the source; an expression that
+    is no longer written as such an assignment (a rewrite of the constructor) is None and the caller falls back to
+    constructing the real tree for totals small enough to allocate"""
     if "e" in _SIZING:
         return _SIZING["e"]
     src = open(os.path.join(common.REPO, "buidl/merkleblock.py")).read()
@@ -128,14 +130,29 @@ def sizing_exprs():
                                 e1 = compile(ast.Expression(n.value), "merkleblock.py", "eval")
                             if isinstance(tg, ast.Name) and tg.id == "num_items":
                                 e2 = compile(ast.Expression(n.value), "merkleblock.py", "eval")
-    if e1 is None or e2 is None:
-        raise MachineryError("MerkleTree.__init__: sizing expressions not found")
     _SIZING["e"] = (e1, e2)
     return e1, e2
 
 
+SIZING_ALLOC_MAX = 2 ** 18   # largest total for which the fallback constructs the real tree
+
+
+def sizing_available(total):
+    e1, e2 = sizing_exprs()
+    return (e1 is not None and e2 is not None) or total <= SIZING_ALLOC_MAX
+
+
 def impl_sizing(total):
     e1, e2 = sizing_exprs()
+    if e1 is None or e2 is None:
+        if total <= SIZING_ALLOC_MAX:
+            import buidl.merkleblock as MB
+            tr = MB.MerkleTree(total)
+            return tr.max_depth, [len(l) for l in tr.nodes]
+        if e1 is None:
+            raise MachineryError("MerkleTree.__init__: sizing expressions not found and total too large to allocate")
+        self = SimpleNamespace(total=total)
+        return eval(e1, {"math": math, "self": self}), None
     self = SimpleNamespace(total=total)
     self.max_depth = eval(e1, {"math": math, "self": self})
     sizes = [eval(e2, {"math": math, "self": self, "depth": d}) for d in range(self.max_depth + 1)]
@@ -749,10 +766,16 @@ def run(ctx):
     preds = []   # (kind, case)
 
     # ---- F17a (fixed): the float depth expression is wrong at 2^29 and 2^31
-    try:
-        bad = [t for t in (2 ** 29, 2 ** 31) if impl_sizing(t)[0] != (t - 1).bit_length()]
-    except Exception:
-        bad = ["sizing expression raised"]
+    if sizing_exprs()[0] is None:
+        # the depth is no longer an assignment `self.max_depth = <expr>` that can be evaluated without allocating 2^29
+        # nodes: the witness cannot be replayed on this tree (the small totals below still go through the constructor)
+        rec.note("F17a witness not replayed: `self.max_depth = <expr>` not located in MerkleTree.__init__")
+        bad = []
+    else:
+        try:
+            bad = [t for t in (2 ** 29, 2 ** 31) if impl_sizing(t)[0] != (t - 1).bit_length()]
+        except Exception:
+            bad = ["sizing expression raised"]
     rec.finding("F17a", bool(bad), {"op": "MerkleTree(total).max_depth", "totals": bad, "expected": "ceil(log2 total)"})
 
     # ---- Merkle roots
@@ -786,7 +809,10 @@ def run(ctx):
     for _ in range(ctx.n(300)):
         totals.add(rng.randrange(1, 2 ** rng.randrange(1, 33) + 1))
     for tot in sorted(totals):
-        lines.append(("tree_sizing", f"tree_sizing {tot}"))
+        if sizing_available(tot):
+            lines.append(("tree_sizing", f"tree_sizing {tot}"))
+        elif sizing_exprs()[0] is None:
+            continue
         if tot >= 1:
             lines.append(("tree_height_spec", f"tree_height_spec {tot}"))
     # the expressions are what MerkleTree really computes (checked by constructing small trees)
